@@ -295,7 +295,7 @@ def r_lexer(F, res):
 def r_glr(F, res):
     rid = res.rule("C13-R6", "GLR: shifted head position = position_after(token.value, head.position), head span = token.span; "
                    "reduced span from the first child's start to the last child's end; empty reduction at the end of the root "
-                   "head's span; Tree::build sets the node's span before calling the builder", floor=5)
+                   "head's span; Tree::build sets the node's span before calling the builder", floor=7)
     f, paths = rt.cache(F).paths(rt.GLR + "shifter$")
     for p in paths:
         pa = calls(p, "Input::position_after")
@@ -314,6 +314,41 @@ def r_glr(F, res):
                 else:
                     res.violation(rid, key, "GLR shifter: " + msg, f.loc())
             break
+    # ... and the Term node that is put on the edge carries the span of ITS token - on the path that creates the head and on
+    # the path that finds it: a shifted head is shared by all tokens that reach the same state at the same position, also
+    # tokens of different lengths (lexical ambiguity), so "the head's span" is some other token's span (D34)
+    nterm = 0
+    for p in paths:
+        for e in p.events:
+            if not (e[0] == "call" and "add_solution" in e[1]):
+                continue
+            term = None
+            for x in mir.walk(e[2]):
+                if isinstance(x, tuple) and x[0] == "agg" and x[1].endswith("SPPFTree::Term"):
+                    term = x
+                    break
+            if term is None:
+                continue
+            dd = dict(term[2])
+            tok, data = dd.get("token"), dd.get("data")
+            sp = dict(data[2]).get("span") if isinstance(data, tuple) and data[0] == "agg" else None
+            if tok is None or sp is None:
+                continue
+            nterm += 1
+            def is_token_span(x):
+                return isinstance(x, tuple) and x[0] == "field" and x[2] == "span" and idiom.same(x[1], tok)
+            ok = is_token_span(sp)
+            if not ok and is_call(sp, "::span") and sp[2] and isinstance(sp[2][0], tuple) and sp[2][0][0] == "call" \
+                    and mir.strip_generics(sp[2][0][1]).endswith("GssHead::new") and len(sp[2][0][2]) > 3:
+                ok = is_token_span(sp[2][0][2][3])          # the span of the head just built from this token
+            key = "shifter/term-span/" + ("new-head" if mir.has_call(e[2][1], "add_head") else "existing-head")
+            if ok:
+                res.ok(rid, key, f.loc())
+            else:
+                res.violation(rid, key, "GLR shifter: the Term node of a shifted token gets the span %s, not the span of its own token "
+                              "(a head found in the frontier base belongs to whichever token created it)" % fmt(sp)[:120], f.loc())
+    if not nterm:
+        res.anchor_lost(rid, "the Term node handed to add_solution in the GLR shifter not found", f.loc())
     forms, g = glr_span_forms(F)
     # The reducing head's span is the span of the last content token (the shifter gives a head its token's span, reduced
     # heads copy it, and - C13-R10 - the layout parser does not leave its own there), and every reduction path ends at that
@@ -337,6 +372,28 @@ def r_glr(F, res):
                         return "end of the reducing head's span = end of the last content token (span bracket C13-R10 holds)"
         return None
     nchild, nempty = check_forms(res, rid, rid, forms, g, "GLR reducer", "reducer/", end_also=head_end)
+    # The reduced span is read off `possibilities[0]` of the first and the last child LINK. A link is shared by all
+    # derivations of that stretch of the GSS, and they need not cover the same input: an alternative that starts with an EMPTY
+    # child is anchored at the end of the previous token, one that starts with a token begins after the white space
+    # (`P: X | Y; X: E Ta; E: EMPTY; Y: Ta;` on ` a`: X is [0-2], Y is [1-2], one link). Whichever came first decides the
+    # parent's span for every tree (D33).
+    via_first = False
+    for em, c, sp in forms:
+        if c[0] != "child":
+            continue
+        for part in ("start", "end"):
+            for x in mir.walk(sp[part]):
+                if isinstance(x, tuple) and is_call(x, "::span") and x[2]:
+                    inner = idiom.first_of(x[2][0])
+                    if isinstance(inner, tuple) and inner[0] == "field" and inner[2] == "possibilities":
+                        via_first = True
+    if via_first:
+        res.violation(rid, "reducer/link-span-first-possibility", "GLR reducer: the span of a reduced node is taken from the FIRST "
+                      "possibility of its first/last child link; the possibilities of one link can cover different spans (an "
+                      "alternative beginning with EMPTY starts before the white space, one beginning with a token after it): in "
+                      "the other trees the parent does not run from its first child's start to its last child's end", g.loc())
+    elif nchild:
+        res.ok(rid, "reducer/link-span-first-possibility", g.loc(), "spans are not read off one possibility of a shared link")
     if not nchild:
         res.anchor_lost(rid, "non-empty span construction in the GLR reducer not found", g.loc())
     k = empty_kind(forms)
